@@ -113,7 +113,15 @@ pub fn join(dir: &str, rel: &str) -> String {
 
 fn gen_cfg(rng: &mut Rng) -> (Value, &'static str) {
     let mut side = rng.side(0xc0f6);
+    let mut side2 = rng.side(0xc0f7);
     let (mut c, kind) = gen_cfg0(rng);
+    // round r (side stream): the template operator configured WITHOUT the plus operator - a `+` inside a
+    // substitution then reaches the template transform untouched
+    if side2.chance(1, 10) {
+        if let Some(ms) = c.get_mut("csiMethods").and_then(|m| m.as_array_mut()) {
+            ms.retain(|m| m.get("src").and_then(|x| x.as_str()) != Some("plusOperator"));
+        }
+    }
     // configuration values spelled in another case (operator entries are matched by name in several places),
     // drawn from a side stream so that every other choice stays as it was
     if side.chance(1, 6) {
@@ -368,6 +376,18 @@ fn fuzz_url(rng: &mut Rng) -> String {
         "file://", "./", "//", "data:application/json;base64,eyJ2ZXJzaW9uIjozfQ", "blob:", "data:;base64",
     ];
     let alphabet: Vec<char> = "abcXYZ019+/=%%%,,;;:.?#&_-~ \t\\'\"{}[]()<>|^`@!$*\u{e9}\u{4f60}\u{1F600}\u{0}".chars().collect();
+    // round r (side stream): a data URL whose header holds a character that GROWS when it is lower-cased
+    // (U+0130, U+023A, U+023E: two bytes become three), with a payload that is empty, shorter than the growth, or
+    // starts with a multi-byte character - byte offsets taken from a case-folded copy do not fit the original
+    let mut side = rng.side(0x0130);
+    let grow = if side.chance(1, 5) {
+        let g = *side.pick(&["\u{130}", "\u{23a}", "\u{23e}", "\u{130}\u{130}\u{23a}"]);
+        let head = *side.pick(&["data:application/json;charset=", "DATA:APPLICATION/JSON;CHARSET=", "data:application/json;x="]);
+        let payload = *side.pick(&["", "", "e", "e3", "\u{e9}30=", "\u{4f60}", "e30=", "eyJ2ZXJzaW9uIjozfQ=="]);
+        Some(format!("{}{}SO-8859-9;base64,{}", head, g, payload))
+    } else {
+        None
+    };
     let mut s = String::from(*rng.pick(&heads));
     if rng.chance(3, 4) {
         s.push(*rng.pick(&[',', ';', ',', '/']));
@@ -382,6 +402,9 @@ fn fuzz_url(rng: &mut Rng) -> String {
         3 => s.push_str("%7\u{4f60}"),
         4 => s.push_str("%zz"),
         _ => {}
+    }
+    if let Some(g) = grow {
+        return g;
     }
     // the comment ends at the line break: keep it on one line
     s.replace(['\n', '\r', '\u{2028}', '\u{2029}'], " ")
